@@ -840,7 +840,7 @@ func runC09(tier string) int {
 		"alias_vocabulary":    "foo bar mit <a> <b>",
 		"patterns":            "foo <a> | foo <a> bar | foo <a> <b> | foo <a> mit <b> | foo <b> mit <a>; negated: foo <a> <!bar> | foo <!mit> <a> <b> | foo <a> <!bar> mit <b>",
 		"parameter_types":     "Zahl, Text, Zahlen Referenz, Text Referenz, T (generic), Zahlen Liste",
-		"call_vocabulary":     "foo bar mit 1 -1 x t (x plus 2) \"s\"",
+		"call_vocabulary":     "foo bar mit 1 -1 x t (x plus 2) \"s\" 2",
 		"call_positions":      "statement, initialiser of a Variable, (end-to-end: parenthesised argument of Schreibe)",
 		"population_families": "see coverage.families",
 	})
